@@ -142,3 +142,18 @@ CHECKS["C13"] = {"pkg": "galaxysim", "test": "TestC13", "level": "exploration",
             "(address, prefix length, gateway, VLAN) must equal, in order, what the FloatingIP objects and the pool say, for every network. "
             "Non-trivial = k>=2 or VLAN != 0 or mask != /24.",
     "assumptions": E2_ASSUME + ["engine E1 (simulated cluster) provides the IPAM side"], "floors": {"k_ge_2": 0.2}}
+
+E3_ASSUME = ["strict iptables/ipset fakes (/verif/harness/nf) with kernel-faithful acceptance rules: atomic iptables-restore --noflush per table, a chain line creates or flushes, -A needs the chain, jump targets and matched sets must exist, -X fails on referenced or non-empty chains, ipset destroy fails while referenced, hash:net rejects /0 and keeps nomatch",
+             "the iptables half of the fake is cross-checked against the real iptables-restore in a private network namespace (setup_extra.sh); ipset semantics are modelled from its documentation (no ipset binary here)"]
+CHECKS["C14"] = {"pkg": "netsim", "test": "TestC14", "level": "exploration",
+    "quick": {"checks": 1200, "timeout": 900}, "thorough": {"checks": 48000, "shards": 8, "timeout": 2400},
+    "rule": "rapid draws 1-6 pods x 0-4 ports (explicit host ports taken from currently free kernel ports, random host port 0, tcp/udp in mixed "
+            "case, host IP empty or set), 0-2 other pods with live mappings, prior NAT tables with 0-3 foreign chains/rules and 0-3 stale "
+            "KUBE-HP-* chains with dangling KUBE-HOSTPORTS rules; real sockets, strict fake iptables. Oracle: full sync from any prior "
+            "table == full sync from empty (own chains), exactly one rule+DNAT chain per port, idempotent, foreign chains byte-identical, "
+            "no rejected batch; Clean(p) removes exactly p's chains/rules, Setup(p);Clean(p) restores the table; handed-out ports distinct "
+            "per protocol, bind() fails while held and succeeds after CloseHostports; a setup with one port taken fails and leaves every "
+            "port it opened bindable. Non-trivial = stale galaxy chains and foreign rules present, >=2 pods, >=1 port.",
+    "assumptions": E3_ASSUME + ["EnsureBasicRule/full sync ran before per-pod Setup/Clean (as galaxy does at start-up)",
+                                "an explicit port lost to another process between selection and use makes the case inconclusive (counted in coverage.extra)"],
+    "floors": {"stale_galaxy_chains": 0.3, "foreign_rules": 0.3}}
